@@ -56,6 +56,26 @@ def run(tier, seed, replay):
     chk.finite("tables.quote_prefixes", need_p <= got_p, len(need_p),
                {"missing": sorted(need_p - got_p), "note": "the table also accepts 'l', which C does not define"},
                what=f"literal prefixes missing: {sorted(need_p - got_p)}")
+    # the lemmas below are about pattern.match(w) for the whole rest of the source: the two
+    # parsers must hand exactly that to the patterns, and consume exactly match.end() characters
+    import ast
+    WHOLE = "self.file.source[self.__pos:]"
+    for fn in ("parse_integer_literal", "parse_float_literal"):
+        f = chk.repo.find_function(f"norminette/lexer/lexer.py:Lexer.{fn}")
+        aliases = {ast.unparse(t) for x in ast.walk(f.node) if isinstance(x, ast.Assign) and ast.unparse(x.value) == WHOLE
+                   for t in x.targets}
+        args, pops = [], []
+        for x in ast.walk(f.node):
+            if isinstance(x, ast.Call) and isinstance(x.func, ast.Attribute) and x.func.attr == "match" \
+                    and ast.unparse(x.func.value).endswith("_PATTERN"):
+                args.append(ast.unparse(x.args[0]) if x.args else "")
+            if isinstance(x, ast.Call) and isinstance(x.func, ast.Attribute) and x.func.attr == "pop":
+                pops.append(ast.unparse(x))
+        ok = bool(args) and all(a == WHOLE or a in aliases for a in args) and pops == ["self.pop(times=match.end())"]
+        chk.frame(f"frame.{fn}.pattern_sees_the_whole_rest_and_match_end_is_consumed", ok,
+                  {"match_arguments": args, "aliases_of_the_rest": sorted(aliases), "pops": pops},
+                  what=f"{fn}: the numeric pattern is not applied to the whole rest of the source ({args}) or the token "
+                       f"does not consume match.end() characters ({pops})")
     # numeric constants, for digit strings of any length: which match the real patterns return
     from . import c11_regex
     nval, bad, dt = c11_regex.run_regex_lemmas(chk, thorough)
